@@ -80,6 +80,13 @@ fn main() {
                     args.get(6).and_then(|s| s.parse().ok()),
                     &mut out,
                 ),
+                "pairs" => scen_exec::run_pairs(
+                    seed,
+                    tier,
+                    args.get(5).map(|s| s.as_str()).unwrap_or("*"),
+                    args.get(6).and_then(|s| s.parse().ok()),
+                    &mut out,
+                ),
                 "steps" => scen_prog::run_steps(seed, tier, args.get(5).map(|s| s.as_str()).unwrap_or("*"), &mut out),
                 "det" => scen_det::run(seed, tier, &mut out),
                 "cli" => scen_det::run_cli(seed, tier, &mut out),
